@@ -60,7 +60,7 @@ pub fn specs() -> Vec<PropSpec> {
         },
         PropSpec {
             id: "C02",
-            parts: &[("c02", 480, 6000), ("netfaults", 64, 2000), ("netpart", 48, 1500)],
+            parts: &[("c02", 480, 6000), ("netfaults", 64, 2000), ("netpart", 48, 1500), ("c12", 32, 600)],
             level: "exploration",
             tags: &["C02"],
             rule: "Each evaluation is one seeded history biased towards \
